@@ -9,6 +9,8 @@
       markers   loaders:    !  LoadConfig fails      +  non-empty config      *  non-empty config that SetConfig rejects
                 runners:    !  Run fails
                 processors: !  Before… fails   ?  Before… returns nil   ^  After… fails   ~  After… returns nil
+                            z  LazyInit (definition.LazyInitComponent): appended to the chain as registered, at its sorted
+                               position (delegate:51 skips the factory lookup); every other processor is fetched from the factory
 
   in :  `D tok*`                          → SortOrderedComponents:  `p<k>` / `o<k>` / `n<id>` sequence  (`-` = empty)
         `S L tok* P tok* R tok*`          → one start with a probe component:
@@ -81,6 +83,17 @@ def beforeCb (t : Tok) (_ : Unit) : Res Unit :=
 def afterCb (t : Tok) (_ : Unit) : Res Unit :=
   if t.marks.contains '^' then .err else if t.marks.contains '~' then .nil else .val ()
 
+/-- marker `z`: the processor implements definition.LazyInit -/
+def Tok.lazy (t : Tok) : Bool := t.marks.contains 'z'
+
+/-- the `resolve` argument of `registerLoop` (delegate:50-62) for the harness' processors: a LazyInit processor is appended
+    as itself; an eager one is replaced by `factory.GetComponentByName(name)`, which for these processors (no injection
+    points, no substituting processor ahead of them) succeeds and is the registered instance again.  Either way the
+    processor lands at its SORTED position: `registerLoop` appends inside the one loop over the sorted slice. -/
+def resolveTok (t : Tok) : Option Tok :=
+  if t.lazy then some t            -- delegate:51  `_, lazy := processor.(definition.LazyInit)`; lazy: used as registered
+  else some t                      -- delegate:52-58  instance of that name from the factory
+
 /-- split `L … P … R …` into its three sections -/
 def sections (ws : List String) : Option (List String × List String × List String) :=
   match ws with
@@ -140,7 +153,7 @@ def handle (line : String) : String :=
     | some (ls, ps, rs) =>
       match parseToks ls 0, parseToks ps 0, parseToks rs 0 with
       | some l, some p, some r =>
-        showStart true (startC theSort Tok.part loadRes (fun t => some t) Tok.inst (fun _ => .skip)
+        showStart true (startC theSort Tok.part loadRes resolveTok Tok.inst (fun _ => .skip)
                    beforeCb afterCb (fun t => t.marks.contains '!') true Tok.smart (fun _ _ => some ()) l p r)
       | _, _, _ => "bad-line"
     | none => "bad-line"
@@ -153,7 +166,7 @@ def handle (line : String) : String :=
     | some (ls, ps, rs) =>
       match parseToks ls 0, parseToks ps 0, parseToks rs 0 with
       | some l, some p, some r =>
-        showStart false (start theSort Tok.part loadRes (fun t => some t) Tok.inst (fun _ => .skip)
+        showStart false (start theSort Tok.part loadRes resolveTok Tok.inst (fun _ => .skip)
                    beforeCb afterCb (fun t => t.marks.contains '!') l p r)
       | _, _, _ => "bad-line"
     | none => "bad-line"
